@@ -8,7 +8,7 @@ from spec import oracle as orc
 from . import domain as D
 from .common import Recorder, Timeout, time_limit
 
-SCHEMAS = ["basic", "list", "marksx"]
+SCHEMAS = ["basic", "list", "marksx", "note"]
 
 
 def lcp(a, b):
